@@ -39,7 +39,7 @@ def oor_pcm(): return ['-1','e:1','e:1000','-100000']
 def oor_raw(): return ['-1','oe:1','oe:5000']
 
 # ---------------------------------------------------------------- families
-def fam_linear(f, mode='seek', lens=(4096,), name=None, extra_pre=(), tag=()):
+def fam_linear(f, mode='seek', lens=(4096,), name=None, extra_pre=(), tag=(), intread=None):
     h = 0
     ls = list(extra_pre) + [f'open {h} {fid(f)} {mode}', f'q {h}']
     if len(lens) == 1:
@@ -49,6 +49,7 @@ def fam_linear(f, mode='seek', lens=(4096,), name=None, extra_pre=(), tag=()):
         for rep in range(6):
             for L in lens: ls.append(f'rfn {h} {L} 9')
         ls.append(f'rfn {h} 4096 -1')
+    if intread: ls = [(l if not l.startswith('rfn ') else f'rin {h} {l.split()[2]} {intread[0]} {intread[1]} {intread[2]} {l.split()[3]}') for l in ls]
     ls += [f'rf {h} 4096', f'tell {h}', f'clear {h}']
     return Scenario(name or f'linear-{mode}-{f}-{"_".join(map(str,lens))}', [f], ls, 'linear-'+mode, budget=60, tags=tag)
 
@@ -245,14 +246,17 @@ def check_c09(pid, tier, seed, replay=None):
         C.FILES[key] = ' '.join(toks)
         extra_files[key] = C.FILES[key]
         scs.append(fam_linear(key, name=f'chain{i}-{k}links', lens=(4096,) if i%3 else (1,333,100000)))
+        # the same file through the integer reader (the packing of a call that crosses into a link with another channel count)
+        if i % 2 == 0: scs.append(fam_linear(key, name=f'chain{i}-{k}links-int', lens=(4096,) if i%3 else (7,333,100000), intread=rng.choice([(2,1,0),(1,0,0),(2,0,1)])))
     for f in ['B','C','D','E','I','J','N','P','Q','V','X','Y']:
         scs.append(fam_linear(f, name=f'chain-{f}'))
+        scs.append(fam_linear(f, name=f'chain-{f}-int', intread=(2,1,0)))
     # file ids collide across scenarios only if they share a script: pin each generated file to its own id per bucket by unique ids modulo 40
     res = run_batch(pid, tier, scs, bindir, nproc=16)
     rules = OPEN_RULES | READ_RULES | SAFETY_RULES | CLEAR_RULES
-    def nt(s, evs): return any(e.get('e')=='Open' and e.get('ret')==0 for e in evs) and any(e.get('e')=='ReadF' and e.get('ret',0)>0 for e in evs)
+    def nt(s, evs): return any(e.get('e')=='Open' and e.get('ret')==0 for e in evs) and any(e.get('e') in ('ReadF','ReadI') and e.get('ret',0)>0 for e in evs)
     return finish(pid, tier, seed, 'model_checking', scs, res, rules, t0,
-      'scenario = seekable open of a generated chained file (k in 1..6, occasionally 40, links drawn from a catalogue incl. 0-sample, 1-sample and single-page links, random packets-per-page layouts, foreign multiplexed streams, non-zero initial granule positions) followed by link-table queries and an uninterrupted read to EOF; non-trivial = open succeeded and audio was delivered; distinct = distinct file layout + script',
+      'scenario = seekable open of a generated chained file (k in 1..6, occasionally 40, links drawn from a catalogue incl. 0-sample, 1-sample and single-page links, random packets-per-page layouts, foreign multiplexed streams, non-zero initial granule positions) followed by link-table queries and an uninterrupted read to EOF, through ov_read_float and through the integer reader ov_read; non-trivial = open succeeded and audio was delivered; distinct = distinct file layout + script',
       nt, COMMON_ASSUME, extra_cov=dict(generated_files=len(extra_files)))
 
 # ---------------------------------------------------------------- C10
@@ -436,7 +440,15 @@ def fam_fault(base, kind, at, persist, name, counted_from_open=True, recover_see
     ls += ['faultoff 0']
     # recovery: the handle (if the open succeeded) must behave like one that never saw the failure.
     # first the very same calls again (a failed call must not leave stale cached state that makes its retry go wrong) ...
-    ls += [c for c in calls if not c.startswith('hr ')]
+    # The FIRST call after the failure is the one that meets the dumped decode machine, so it is varied: the same calls, or a
+    # seek (sample / page / time / lapped) to the very beginning of a link, or straight to fresh targets.
+    nl = nlinks(f); variant = recover_seed % 3; l = (recover_seed // 3) % nl
+    if variant == 1:
+        d = (recover_seed // (3 * nl)) % 2
+        op = ('ps', 'psp', 'psl', 'ps')[(recover_seed // (6 * nl)) % 4]
+        ls += [f'{op} 0 p:{l}:-1:{d}', 'rf 0 4096', 'rf 0 64']
+    if variant != 2:
+        ls += [c for c in calls if not c.startswith('hr ')]
     # ... then fresh targets
     tg = pcm_targets(rng, f, 50)
     for t in rng.sample(tg, 3):
@@ -501,6 +513,24 @@ def check_c12(pid, tier, seed, replay=None):
                 for pre in (['rf 0 64'], [f'ps 0 e:-5', 'rf 0 2']) if not quick else (['rf 0 64'],):
                     ls = [f'open 0 {fid(f)} seek'] + pre + [f'fault 0 {kind} {k} 0 rel', c, 'faultoff 0', c, 'rf 0 4096', 'rf 0 64', 'tell 0', 'clear 0']
                     scs.append(Scenario(f'retry{i}-k{kind}-at{k}-{len(pre)}', [f], ls, 'fault-retry', budget=8, tags=('fault',)))
+    # first-page family: the decoder sits in link L, a seek towards link L2 fails, and the FIRST call afterwards is a seek to the
+    # very beginning of a link (L itself above all): the path that takes the 'target is on the first page' exit with a dumped machine
+    combos = []
+    for f in ('B', 'O', 'T'):
+        nl = nlinks(f)
+        for L in range(nl):
+            for L2 in sorted({L, (L + 1) % nl}):
+                for kind in (1, 2, 4):
+                    for k in (1, 2, 3, 5):
+                        for op in ('ps', 'psp', 'psl', 'pspl'):
+                            for Lr in sorted({L, L2}):
+                                for d in (0, 1):
+                                    combos.append((f, L, L2, kind, k, op, Lr, d))
+    if quick: combos = [c for i, c in enumerate(combos) if (i * 7 + seed) % 23 == 0 or (c[1] == c[6] and c[7] == 0 and c[4] == 1 and c[5] in ('ps', 'psp') and c[3] in (1, 4))]
+    for i, (f, L, L2, kind, k, op, Lr, d) in enumerate(combos):
+        ls = [f'open 0 {fid(f)} seek', f'ps 0 f:{L}:1:2:0', 'rf 0 64', f'fault 0 {kind} {k} 1 rel', f'ps 0 f:{L2}:2:3:0', 'faultoff 0',
+              f'{op} 0 p:{Lr}:-1:{d}', 'rf 0 4096', 'rf 0 64', 'tell 0', f'ps 0 f:{L2}:1:3:0', 'rf 0 64', 'clear 0']
+        scs.append(Scenario(f'firstpage-{f}-{L}{L2}{Lr}-k{kind}-at{k}-{op}-{d}', [f], ls, 'fault-firstpage', budget=8, tags=('fault',)))
     res = run_batch(pid, tier, scs, bindir)
     res['infra'] += pres['infra'] + rres['infra']
     rules = None   # every rule: a fault scenario may break anything
